@@ -42,5 +42,7 @@ long long hx_arg_int(json_t *args, const char *key, long long dflt);
 bool hx_arg_bool(json_t *args, const char *key, bool dflt);
 const char *hx_arg_str(json_t *args, const char *key);    /* NULL if absent / not a string */
 
+size_t hx_refsum(json_t *j);
+
 #define CANARY 32
 #define CANARY_BYTE 0xA5
